@@ -335,7 +335,53 @@ func (e *Exec) isLvalue(x ast.Expr) bool {
 	return false
 }
 
+// borrow: `f(&lv)` / `lv.M()` with a pointer receiver lend the callee a temporary cell holding lv's value;
+// when the call returns the cell is copied back into lv. Exact unless the callee retains the pointer and
+// writes through it after returning (or reaches lv by another route during the call).
+type borrow struct {
+	lv   ast.Expr
+	ref  Term
+	elem types.Type
+	path []int // embedded-field path below lv (promoted pointer-receiver methods)
+}
+
 func (e *Exec) call(st *State, x *ast.CallExpr) Val {
+	mark := len(e.borrows)
+	saved := e.borrowArgs
+	e.borrowArgs = map[ast.Expr]bool{}
+	for _, a := range x.Args {
+		if u, ok := ast.Unparen(a).(*ast.UnaryExpr); ok && u.Op == token.AND {
+			if _, isLit := ast.Unparen(u.X).(*ast.CompositeLit); !isLit {
+				e.borrowArgs[u] = true
+			}
+		}
+	}
+	e.borrowCall = x
+	res := e.call0(st, x)
+	e.borrowArgs = saved
+	mine := append([]borrow(nil), e.borrows[mark:]...)
+	e.borrows = e.borrows[:mark]
+	if len(mine) > 0 && !st.dead {
+		q := e.quiet
+		e.quiet = true
+		for _, b := range mine {
+			hn, hs := e.ptrHeap(b.elem)
+			cur := Val{T: Select(e.heapRead(st, hn, hs), b.ref), GT: b.elem}
+			if len(b.path) > 0 {
+				base := e.ev(st, b.lv)
+				cur = e.updatePath(st, base, b.path, cur, b.lv.Pos())
+				if _, isPtr := base.GT.Underlying().(*types.Pointer); isPtr {
+					continue
+				}
+			}
+			e.store(st, b.lv, cur)
+		}
+		e.quiet = q
+	}
+	return res
+}
+
+func (e *Exec) call0(st *State, x *ast.CallExpr) Val {
 	info := e.info()
 	if tv, ok := info.Types[x.Fun]; ok && tv.IsType() {
 		v := e.ev(st, x.Args[0])
@@ -395,7 +441,12 @@ func (e *Exec) call(st *State, x *ast.CallExpr) Val {
 				if len(path) > 1 {
 					recv = e.fieldPath(st, recv, path[:len(path)-1], f.Pos())
 				}
+				e.recvLv, e.recvPath = f.X, nil
+				if len(path) > 1 {
+					e.recvPath = path[:len(path)-1]
+				}
 				recv = e.adjustRecv(st, recv, fn, f.Pos())
+				e.recvLv = nil
 				args := e.evArgs(st, x, fn.Type().(*types.Signature))
 				return e.callFunc(st, fn, &recv, args, x)
 			case types.FieldVal:
@@ -443,8 +494,13 @@ func (e *Exec) adjustRecv(st *State, recv Val, fn *types.Func, pos token.Pos) Va
 	case wantPtr && !havePtr:
 		// method with pointer receiver on an addressable value: the value is passed by reference.
 		// Modelled by a temporary cell; writes through it are not propagated back (noted).
-		e.note("pointer-receiver method called on a value: callee writes to the receiver are not propagated")
-		return e.alloc(st, recv, types.NewPointer(recv.GT))
+		r := e.alloc(st, recv, types.NewPointer(recv.GT))
+		if e.recvLv != nil && e.assignable(e.recvLv) {
+			e.borrows = append(e.borrows, borrow{lv: e.recvLv, ref: r.T, elem: recv.GT, path: e.recvPath})
+		} else {
+			e.note("pointer-receiver method called on a value that is not a variable, field or element: callee writes to the receiver are not propagated")
+		}
+		return r
 	case !wantPtr && havePtr:
 		return e.deref(st, recv, pt, pos)
 	}
@@ -886,7 +942,17 @@ func (e *Exec) callFunc0(st *State, fn *types.Func, recv *Val, args []Val, x *as
 		all = append([]Val{*recv}, args...)
 	}
 	inRepo := strings.Contains(pkgPath, "thought-machine/please")
-	return e.opaqueCall(st, name, sig, all, inRepo || hasRefArg(all))
+	reach := inRepo || hasRefArg(all)
+	if !reach && x != nil {
+		// an argument converted to an interface parameter (json.Unmarshal(data, &v), DecodeElement(&v, ..)) still
+		// hands the callee a reference into the repository's heap: decide on the argument's own static type
+		for _, a := range x.Args {
+			if t := e.info().TypeOf(a); t != nil && typeTouchesRepo(t, 0) {
+				reach = true
+			}
+		}
+	}
+	return e.opaqueCall(st, name, sig, all, reach)
 }
 
 func shortName(pkgPath string) string {
